@@ -213,6 +213,40 @@ def inverse_pairs(ctx, d2):
         po, _ = run_paths(o.node)
         pi, _ = run_paths(i.node)
         okk = True
+        if cname == 'VolumetricFlowDict':
+            # the factor is the cached molar volume: per path, output returns value*F and input value/F, where F is the third element of
+            # the remembered entry on a path that re-uses it and the volume just recorded on a path that re-evaluates it
+            def _unparen(t):
+                return re.sub(r'\(([\w.]+\([^()]*\))\)\[', r'\1[', t)
+            for meth, sign in ((o, 1), (i, -1)):
+                vp_ = meth.params[2]
+                mps, _ = run_paths(prog.normal_form(meth), follow_except=False)
+                n_ = 0
+                for p in mps:
+                    if p.raised:
+                        continue
+                    n_ += 1
+                    if p.ret is None:
+                        okk = False
+                        continue
+                    st_ = [e for e in p.events if e.kind == 'store' and e.target.startswith('self.cache[') and e.extra and len(e.extra) == 3]
+                    if st_:
+                        F = st_[-1].extra[2]
+                        want_ = Form.atom(vp_) * (F if sign == 1 else F.inv()) if (sign == 1 or F.inv() is not None) else None
+                        if want_ is None or p.ret != want_:
+                            okk = False
+                    else:
+                        gets = [e for e in p.events if e.kind == 'call' and e.target == 'self.cache.get']
+                        fac = p.ret * Form({((vp_, -1),): 1})
+                        if not gets or len(fac.t) != 1:
+                            okk = False
+                            continue
+                        (k_, c_), = fac.t.items()
+                        entry = 'self.cache.get(%s)' % ', '.join(a.pretty() for a in gets[-1].value)
+                        okk = okk and c_ == 1 and len(k_) == 1 and k_[0][1] == sign and _unparen(k_[0][0]) == entry + '[2]'
+                if not n_:
+                    okk = False
+            po = pi = []
         for p in po:
             for q in pi:
                 if p.ret is None or q.ret is None:
